@@ -169,23 +169,16 @@ class Module:
       raise AnalysisError('cannot parse %s: %s' % (relpath, e))
     self.renamed_locals = 0
     self.normalized = (0, 0)
+    self.normalize_error = None
     try:
-      from .normalize import normalize
-      self.normalized = normalize(self.tree, name)
-    except RecursionError:
-      pass
-    if not os.environ.get('GINSA_NO_CANON'):
-      from .canon import canonicalise
-      self.renamed_locals = canonicalise(self.tree, name)
-      if not os.environ.get('GINSA_NO_NORMALIZE'):
-        try:
-          from .normalize import post_canon
-          t2 = post_canon(self.tree, name)
-          self.normalized = (self.normalized[0] + t2[0], self.normalized[1] + t2[1])
-          if t2 != (0, 0):
-            self.renamed_locals += canonicalise(self.tree, name)
-        except RecursionError:
-          pass
+      self._normal_form(name)
+    except Exception as e:     # a rewrite tripped over an unforeseen construct: analyse the source as written
+      self.normalize_error = '%s: %s' % (type(e).__name__, e)
+      self.tree = ast.parse(self.src, filename=path)
+      self.normalized = (0, 0)
+      if not os.environ.get('GINSA_NO_CANON'):
+        from .canon import canonicalise
+        self.renamed_locals = canonicalise(self.tree, name)
     for parent in ast.walk(self.tree):
       for child in ast.iter_child_nodes(parent):
         child.parent = parent
@@ -194,6 +187,23 @@ class Module:
     self.classes = {}   # top-level name -> Class
     self.imports = {}   # bound name -> ('module', 'gin.config') | ('name', 'gin.config', 'x')
     self.assigns = {}   # top-level name -> list of (stmt, value)
+
+
+def _normal_form(self, name):
+  from .normalize import normalize
+  self.normalized = normalize(self.tree, name)
+  if not os.environ.get('GINSA_NO_CANON'):
+    from .canon import canonicalise
+    self.renamed_locals = canonicalise(self.tree, name)
+    if not os.environ.get('GINSA_NO_NORMALIZE'):
+      from .normalize import post_canon
+      t2 = post_canon(self.tree, name)
+      self.normalized = (self.normalized[0] + t2[0], self.normalized[1] + t2[1])
+      if t2 != (0, 0):
+        self.renamed_locals += canonicalise(self.tree, name)
+
+
+Module._normal_form = _normal_form
 
 
 class Index:
